@@ -16,6 +16,8 @@
 (*                           of the first evaluation                        *)
 (*   SucceedsWithoutLoss     without machine loss both invocations succeed  *)
 (*   DiscardReturns          Discard returns                                *)
+(*   FatalErrorSurfacesSessionUsable  a persistent user error fails the run *)
+(*                           (no hang, no success); a later run succeeds   *)
 (*   CompletesWhenLossesStop after the loss of one machine both invocations *)
 (*                           still succeed (replacements can be started)    *)
 (***************************************************************************)
@@ -50,7 +52,10 @@ End == /\ s <= Len(Recs) /\ i = Len(Recs[s].events) + 1
                 ELSE (IF r.run1 = "timeout" \/ r.reuse = "timeout" \/ r.reuse = "scan timeout" THEN <<Fail(r, "NoRunBlocksForever")>> ELSE <<>>)
                   \o (IF r.reuse # "skipped" /\ stuck # {} THEN <<Fail(r, "NoTaskLeftRunning")>> ELSE <<>>)
                   \o (IF r.reuse = "ok" /\ (r.rows # r.wantrows \/ r.sum # r.wantsum) THEN <<Fail(r, "RowsOfFirstEvaluation")>> ELSE <<>>)
-                  \o (IF kills = 0 /\ (r.run1 # "ok" \/ r.reuse # "ok") THEN <<Fail(r, "SucceedsWithoutLoss")>> ELSE <<>>)
+                  \o (IF kills = 0 /\ r.kind # "fatal" /\ (r.run1 # "ok" \/ r.reuse # "ok") THEN <<Fail(r, "SucceedsWithoutLoss")>> ELSE <<>>)
+                  \* user code that fails persistently: the run reports an error (it neither succeeds nor hangs) and the
+                  \* session remains usable for a healthy program
+                  \o (IF r.kind = "fatal" /\ (r.run1 = "ok" \/ r.run1 = "timeout" \/ r.reuse # "ok") THEN <<Fail(r, "FatalErrorSurfacesSessionUsable")>> ELSE <<>>)
                   \o (IF r.discard /\ r.run1 = "ok" /\ ~r.discardret THEN <<Fail(r, "DiscardReturns")>> ELSE <<>>)
                   \* one machine is lost, replacements can be started, nothing else fails: the lost outputs are recomputed
                   \o (IF kills = 1 /\ (r.run1 # "ok" \/ r.reuse # "ok") THEN <<Fail(r, "CompletesWhenLossesStop")>> ELSE <<>>)
